@@ -125,6 +125,25 @@ def run_case(case: dict) -> dict:
         if dict(sim.y0) != ic:
             viols.append(core.viol("Simulator.y0 differs from resolved initial conditions", None, got=dict(sim.y0), expected=ic, spec=spec))
         counters["Simulator.y0 compared"] = 1
+        if rng.random() < 0.5:
+            # an override made on one simulator is that simulator's business: the model's resolved initial state, and what
+            # any other simulator of the same model starts from by default, stay what the declared initial state gives
+            other = Simulator(model)
+            names = rng.sample(list(exp_ic), rng.randint(1, len(exp_ic)))
+            over = {k: round(rng.uniform(3.0, 9.0), 3) for k in names}
+            if len(over) == 1 and rng.random() < 0.5:
+                other.update_variable(names[0], over[names[0]])
+            else:
+                other.update_variables(over)
+            again = dict(model.get_initial_conditions())
+            if any(not core.close(again[k], exp_ic[k]) for k in exp_ic):
+                viols.append(core.viol("override on one Simulator changed the model's resolved initial conditions", None, override=over, got=again, expected=exp_ic, spec=spec))
+            fresh = dict(Simulator(model).y0)
+            if any(not core.close(fresh[k], exp_ic[k]) for k in exp_ic) or any(not core.close(dict(sim.y0)[k], exp_ic[k]) for k in exp_ic):
+                viols.append(core.viol("override on one Simulator changed what other simulators of the model start from by default", None, override=over, new_simulator=fresh, earlier_simulator=dict(sim.y0), expected=exp_ic, spec=spec))
+            if any(not core.close(dict(other.y0)[k], over.get(k, exp_ic[k])) for k in exp_ic):
+                viols.append(core.viol("Simulator.update_variables did not set the pending start state", None, override=over, got=dict(other.y0), spec=spec))
+            counters["simulator override isolation compared"] = 1
         dp, dv = set(model.get_derived_parameter_names()), set(model.get_derived_variable_names())
         if dp != set(ref.derived_parameters()) or dv != set(ref.derived_variables()):
             viols.append(core.viol("derived parameter / derived variable classification differs from reachability closure", None,
